@@ -84,6 +84,27 @@ Murmur2X64(bytes, seed8) == Murmur64A(bytes, seed8)
 HashBytes(bytes, seed8, szt) == IF szt = 8 THEN Murmur64A(bytes, seed8)
                                 ELSE FromBytes(Murmur2(bytes, Low(seed8, 4)), 8)
 
+----------------------------------------------------------------------------
+(* MurmurHash2A (Appleby, same source file): the Merkle-Damgard variant.    *)
+(*   mmix(h,k): k *= m; k ^= k >> 24; k *= m; h *= m; h ^= k                *)
+(*   h = seed; for each 4-byte block k: mmix(h,k)                           *)
+(*   t = the 0..3 tail bytes as a little-endian number; mmix(h,t);          *)
+(*   l = len; mmix(h,l);  h ^= h >> 13; h *= m; h ^= h >> 15                *)
+(* NOT one of the functions the property names.  It is here because it is   *)
+(* what the header's branch for 32-bit platforms (INTPTR_MAX == INT32_MAX)  *)
+(* of murmur_hash<8> computes (MurmurImpl32.tla is the transcription, TLC   *)
+(* checks that it refines this definition), so that the ILP32 build of the  *)
+(* driver can be compared with a description of the code (advisory) next to *)
+(* the comparison with the statement's MurmurHash64A.                       *)
+Mmix(h, k) == XorW(MulW(h, M32), Mix32(k))
+TailWord32(bytes) == LET rem == Len(bytes) % 4 IN FromBytes(SubSeq(bytes, Len(bytes) - rem + 1, Len(bytes)), 4)
+Murmur2A(bytes, seed) ==                   \* seed: 4 digits; result: 4 digits
+    Final32(Mmix(Mmix(Body32(bytes, seed), TailWord32(bytes)), LenWord(bytes, 4)))
+
+(* murmur2_x64 as the unchanged header computes it where sizeof(std::size_t) = 4: the uint64_t seed is converted   *)
+(* to std::size_t (low four digits), MurmurHash2A is run, the 32-bit result is returned zero-extended              *)
+X64OnILP32(bytes, seed8) == FromBytes(Murmur2A(bytes, Low(seed8, 4)), 8)
+
 (* L2 note (advisory only, not part of the property): the header's fallback *)
 (* for platforms with an unusual sizeof(std::size_t),                       *)
 (*   hash = seed; for each char c: hash = hash * 131 + size_t(c)            *)
